@@ -33,13 +33,32 @@ type c16Rec struct {
 }
 
 func c16Builder(m Mode, src string, recs *[]c16Rec) *parser.Builder {
+	return c16BuilderSub(m, src, recs, false)
+}
+
+// c16BuilderSub: with sub, the statement interceptor first builds a SECOND parser from the same builder and
+// parses a nested snippet to the end (a plugin that sub-parses embedded code): two parsers of one builder
+// are alive at once, and the answers of the outer one must not be affected.
+func c16BuilderSub(m Mode, src string, recs *[]c16Rec, sub bool) *parser.Builder {
 	pb := newPB(m)
+	inSub := false
 	pb.UseStatementInterceptor(func(p *parser.Parser, next func() ast.Statement) ast.Statement {
+		if inSub {
+			return next()
+		}
+		if sub {
+			inSub = true
+			pb.Build("function q ( ) { { z ; } if ( a ) { b ; } }").ParseProgram()
+			inSub = false
+		}
 		t := p.CurrentToken
 		*recs = append(*recs, c16Rec{'s', ref.OffsetOf(src, t.Start.Line, t.Start.Column), p.IsInFunction(), p.CurrentContext(), t.Literal})
 		return next()
 	})
 	pb.UseExpressionInterceptor(func(p *parser.Parser, next func() ast.Expression) ast.Expression {
+		if inSub {
+			return next()
+		}
 		t := p.CurrentToken
 		*recs = append(*recs, c16Rec{'e', ref.OffsetOf(src, t.Start.Line, t.Start.Column), p.IsInFunction(), p.CurrentContext(), t.Literal})
 		return next()
@@ -78,8 +97,18 @@ func c16Nest(src string, paths map[int]string, m Mode) (kind, detail string, inv
 
 // c16NestC also returns the violation class (interceptor kind + nesting path of the token).
 func c16NestC(src string, paths map[int]string, m Mode) (kind, detail, class string, invocations int, stacks []string) {
+	kind, detail, class, invocations, stacks = c16NestSub(src, paths, m, false)
+	if kind == "" {
+		if k2, d2, c2, _, _ := c16NestSub(src, paths, m, true); k2 != "" {
+			return "subparse-" + k2, "with a second parser of the same builder used inside the statement interceptor: " + d2, c2, invocations, stacks
+		}
+	}
+	return
+}
+
+func c16NestSub(src string, paths map[int]string, m Mode, sub bool) (kind, detail, class string, invocations int, stacks []string) {
 	var recs []c16Rec
-	o := parseWith(c16Builder(m, src, &recs), src)
+	o := parseWith(c16BuilderSub(m, src, &recs, sub), src)
 	if o.Panic != "" {
 		return "panic", o.Panic, "", 0, nil
 	}
